@@ -27,6 +27,8 @@ def fresh(kind):
         return OriginHostAVP("c.de")
     if kind == "U":
         return DiameterAVP(code=99999, data=b"xyz")
+    if kind == "P":         # data of 1 byte: three bytes of padding
+        return DiameterAVP(code=99997, data=b"q")
     if kind == "V":
         return DiameterAVP(code=99998, vendor_id=4242, flags=0x80, data=b"xy")
     if kind == "G":
@@ -206,9 +208,9 @@ def op_refresh(msg, ref):
 op_refresh.base = "refresh"
 
 
-OPS = [op_append("A"), op_append("A"), op_append("B"), op_append("U"), op_append("G"), op_append("R"), op_append("V"),
+OPS = [op_append("A"), op_append("A"), op_append("B"), op_append("U"), op_append("G"), op_append("R"), op_append("V"), op_append("P"),
        op_pop("first"), op_pop("last"), op_pop("mid"), op_cleanup, op_setavps("AB"), op_setavps("A"), op_setitem("first", "B"),
-       op_setitem("last", "A"), op_setitem("last", "U"), op_update_key, op_update_avps("new.host"), op_update_avps("x"), op_refresh,
+       op_setitem("last", "A"), op_setitem("last", "U"), op_setitem("first", "P"), op_update_key, op_update_avps("new.host"), op_update_avps("x"), op_refresh,
        op_extend("AU")]
 OPS = OPS[1:]   # one append(A) is enough: every call creates a fresh, equal-valued object
 
